@@ -175,10 +175,12 @@ def random_fp_history(rng, T, p, R, D, length, kmax=50, long_vectors=False, pool
         idx = sorted(rng.sample(dom, rng.choice([0, 1, 2, D // 2, D - 1, D]) if long_vectors else rng.randint(0, min(D, 4))))
         regs.append([(i, rng.randint(1, p - 1) if p > 1 else 1) for i in idx])
     lines = [fp_reset_line(T, p, regs)]
-    ops = ['Unit', 'Copy', 'Assign', 'Plus', 'Plus', 'PlusAssign', 'PlusAssign', 'Scale', 'Scale', 'ScaleAssign', 'Dot', 'Dot', 'Clear']
+    ops = ['Unit', 'Copy', 'Assign', 'Plus', 'Plus', 'PlusAssign', 'PlusAssign', 'Scale', 'Scale', 'ScaleAssign', 'Dot', 'Dot', 'Clear', 'MoveAssign']
     for _ in range(length):
         op = rng.choice(ops)
         d, a, b = rng.randrange(R), rng.randrange(R), rng.randrange(R)
+        if op in ('MoveAssign', 'Assign', 'PlusAssign') and rng.random() < 0.2:
+            a = d                       # self assignment / self move assignment / v += v
         k = 0
         if op == 'Unit':
             a = dom[rng.randrange(D)]
